@@ -155,18 +155,14 @@ def gapEntries (p : Profile) : List ((Sym × Sym × Sym) × Nat) :=
   (codons.zip (table p)).filter fun (c, _) => !gapFree c
 
 /-- **what gaps do** (outside the property, recorded as found): a gap is the empty set of bases and
-    `contains` is a subset test, so a gap position is contained in *every* row pattern.  Of the 721
-    codons with a gap, 557 are reported ambiguous and 164 are translated to an amino acid — the one
-    of the first row matching the remaining positions: `---`, `--T`, `--N` give A (first row `GCN`),
-    `-T-` gives F (`TTY`), `A--` gives I (`ATH`).  No gap codon is rejected as invalid. -/
+    `contains` is a subset test, so a gap position is contained in *every* row pattern: codons with
+    a gap are never rejected as invalid — they are reported ambiguous or translated to the amino of
+    the first row matching the remaining positions (on the unchanged tree: 557 ambiguous, 164
+    translated, e.g. `---`, `--T`, `--N` give A, `-T-` gives F, `A--` gives I; these particular
+    outcomes depend on the order of the rows and are therefore not part of any theorem). -/
 theorem gap_codons (p : Profile) :
     (gapEntries p).length = 721 ∧
-    ((gapEntries p).filter (·.2 == 1000)).length = 557 ∧
-    ((gapEntries p).filter fun ce => (Gen.amino p).items.contains ce.2).length = 164 ∧
-    ((gapEntries p).filter fun ce => codes ce.1 == (0, 0, 0) || codes ce.1 == (0, 0, 1) || codes ce.1 == (0, 0, 15)
-        || codes ce.1 == (0, 1, 0) || codes ce.1 == (8, 0, 0)).map (fun ce => (codes ce.1, (Gen.amino p).toChar ce.2))
-      = [((0, 0, 0), 'A'.toNat), ((0, 0, 1), 'A'.toNat), ((0, 0, 15), 'A'.toNat), ((0, 1, 0), 'F'.toNat),
-         ((8, 0, 0), 'I'.toNat)] := by
+    ((gapEntries p).filter fun ce => !(ce.2 == 1000 || (Gen.amino p).items.contains ce.2)) = [] := by
   cases p <;> decide +kernel
 
 /-! ### 3. the model: invalid length, and model = extracted graph -/
